@@ -9,11 +9,12 @@ FILES = ["zz_verif_common_test.go", "zz_verif_c16_test.go"]
 
 
 def classify(rec):
-    """Narrow key of the one genuine defect found for C16 (fixed in /repo, so it suppresses nothing)."""
+    """Narrow keys of the genuine defects found for C16 (all fixed in /repo, so they suppress nothing)."""
     want = rec.get("want") or []
     if (str(rec.get("how", "")).startswith("history-dependent") and (rec.get("got") or {}).get("k") == "id"
             and want and all(o.get("k") in ("none", "err") for o in want)):
-        return "stale-clientid-after-reconfiguration"
+        # A history with late requests of the previous proxy instance is the second, separate defect.
+        return "stale-clientid-via-late-request-of-previous-proxy" if rec.get("late_requests") else "stale-clientid-after-reconfiguration"
     return None
 
 
